@@ -109,10 +109,10 @@ CLAIMS = {
    text='Observer C15 (last level / resource record equals the live value, exactly one received / produced / supplied / failure record per occurrence observed through public callbacks with time, part, quality and value, counters equal record counts) checked by TLC on every recorded step; the resource-record clauses are also checked on the pool traces (PoolsTrace.tla), the work-order records on the maintainer traces (MaintTrace.tla), the schedule records on the scheduler traces (SchedTrace.tla), and the exported event-trace file against the observed dispatch sequence.',
    technique='TLA+ closed spec Floor.tla model-checked with TLC over configuration families (all tie-breaks) + TLC trace validation of real runs against the property observers FloorObs.tla (sampled TLC behaviours replayed on the code with forced dispatch order)'),
  'C16': dict(engine='floor', ref='DESIGN.md 3.2, 6', note=FLOOR_NOTE,
-   text='Observer C16 (value = start + history, each entry with time, non-zero change and running total; source value = minus supplied value; sink value = received value; batch = sum of parts; net value = sum over assets) checked by TLC on every recorded step of the scenario families.',
+   text='Observer C16 (value = start + history, each entry with time, non-zero change and running total; source value = minus supplied value; sink value = received value; batch = sum of parts, recursively for batches of batches made by a user-written generator; net value = sum over assets) checked by TLC on every recorded step of the scenario families.',
    technique='TLA+ closed spec Floor.tla model-checked with TLC over configuration families (all tie-breaks) + TLC trace validation of real runs against the property observers FloorObs.tla (sampled TLC behaviours replayed on the code with forced dispatch order)'),
  'C17': dict(engine='floor', ref='DESIGN.md 3.2, 6', note=FLOOR_NOTE,
-   text='Observer C17 keeps the sequence of leaf parts entering and leaving each batcher and checks sequence preservation, exact batch sizes, acceptance only when empty, and leaf counting in buffers and sinks; checked by TLC on the closed specification and on recorded runs with single parts and batches of sizes 0..3 through one or two batchers, buffers and processors.',
+   text='Observer C17 keeps the sequence of leaf parts entering and leaving each batcher and checks sequence preservation, exact batch sizes, acceptance only when empty, the batcher in the history of every part it unpacked, and member counting in buffers and sinks; checked by TLC on the closed specification and on recorded runs with single parts and batches of sizes 0..3 through one or two batchers, buffers and processors.',
    technique='TLA+ closed spec Floor.tla model-checked with TLC over configuration families (all tie-breaks) + TLC trace validation of real runs against the property observers FloorObs.tla (sampled TLC behaviours replayed on the code with forced dispatch order)'),
  'C14': dict(engine='equiv', ref='DESIGN.md 6 (C14)',
    text='Design level: TLC model-checks SplitMC (two copies of the kernel specification with a fixed tie-break choice function: '
